@@ -85,6 +85,21 @@ CHECKS = {
    technique='TLA+ models of the stream session, process exit/collect and drain (specs/Stream) model-checked with TLC; case tables and behaviours replayed over real channel pairs with exactly TLC packetisation against a reference semantics on the concatenated stream',
    text='TLC exhausts every stream over {a,b,newline} up to 4-6 units x every chunking x read/readexactly/readuntil/readline (single, multiple, regex separators) x windows, in-band markers, exit/CLOSE/wait/collect_output orderings, redirect targets and drain (ChunkIndependent, NothingLost, AllDataThenEOF, PauseAccurate, DrainSound; seven sensitivity variants rejected); ~15k (thorough 185k) cases are replayed against real SSHReader/SSHWriter/SSHClientProcess objects and every return value/exception is compared with the reference, with the window-escape calibrated as allowed.',
    note='Trusted: TLC, virtual loop, the reference semantics in drivers/stream.py. Not modelled: reads after connection loss with an exception, async for, server-side redirect().'),
+ 'C17': dict(
+   category='model_checking', design_ref='DESIGN.md §5.17',
+   technique='TLA+ model of pattern matching, known_hosts lookup, option tokenizer and authorized_keys selection (specs/TrustFiles) enumerated by TLC; every case executed through the real lookup APIs; ssh-keygen -F as second opinion',
+   text='Every case is a TLC initial state checked against twelve invariants (WildIsRef, NegationExcludes, FallbackRule, RevocationKept, DamagedLineIsLocal, TokQuotes, AllMustMatch, FirstEntryWins ...; eight wrong-rule/witness runs rejected): pattern lists over a 5-symbol alphabet, 20 host-field forms incl. hashed, [host]:port, CIDR and negation, markers, files of up to 3 lines in every order, 56k option strings, 19 key-damage classes; each of the ~130k (thorough 955k) cases runs through match_known_hosts / import_known_hosts().match / import_authorized_keys().validate with real keys and is compared with the model.',
+   note='Trusted: TLC, key material generated by asyncssh, ssh-keygen -F (advisory). Recorded, not alarmed: no case folding (OpenSSH folds), CIDR patterns are an asyncssh extension, backslash escapes outside quotes.'),
+ 'C18': dict(
+   category='model_checking', design_ref='DESIGN.md §5.18',
+   technique='TLA+ interpreter of abstract config programs (specs/Config) enumerated by TLC; each program written to real files and loaded by SSHClientConfig/SSHServerConfig and through connect(); ssh -G as second opinion',
+   text='TLC enumerates programs of up to 4 directives from a 53-entry menu (Host/Match with negation and multiple criteria, canonical/final, spellings, scalar and accumulating options, tokens and ${ENV}, Include of file and glob) x 6 targets x 26 hostile server user names against FirstWins/Accumulates/IncludeInPlace/IncludeRestores/NoUnsafeExpansion (three sensitivity runs rejected); each of the ~28k (thorough 242k) cases is written to disk, loaded by the real code and compared with the model; ssh -G agrees on every sampled case.',
+   note='Trusted: TLC, OpenSSH ssh -G (advisory). One known finding: the second (canonical/final) pass restarts from scratch (known_findings.json).'),
+ 'C20': dict(
+   category='model_checking', design_ref='DESIGN.md §5.20',
+   technique='TLA+ models of a forwarded connection, the forwarding permission table and the SOCKS parser (specs/Forward) model-checked with TLC; behaviours/rows/inputs replayed on the in-memory network against real forwarders, listeners and a real server',
+   text='TLC exhausts interleavings of data/EOF/close/reset from both ends incl. early data and late confirm/refusal and SSH cut (RelayFIFO, HalfClose, CloseBoth, Released, NoListenerLeft; four variants rejected), the 504-row permission table (request kind x key options x certificate x application answer x destination) and 4.7k SOCKS parser states; behaviours are replayed with manual packet delivery on local/remote/SOCKS4/4a/5/UNIX forwards with step-by-step comparison, every permission row runs against a real server with real key options/certificates, and every SOCKS input is fed whole, split and byte by byte.',
+   note='Trusted: TLC, in-memory sockets of the virtual loop as TCP/UNIX ends (thorough adds real loopback sockets). Over-restrictive refusals are divergences, not violations.'),
 }
 NOT_YET = 'check under construction in this round; see DESIGN.md §9'
 
